@@ -38,7 +38,94 @@ func concretise(r *run, o *fovc.Obligation, model string) *replayResult {
 	return nil
 }
 
-var replayers = map[string]func(*run, *fovc.Obligation, string) *replayResult{}
+var replayers = map[string]func(*run, *fovc.Obligation, string) *replayResult{
+	"frt": replayFrt,
+}
+
+var reKind = regexp.MustCompile(`\(define-fun reflect_kind \(\(x!0 Reflect_Value\)\) Int\s+(\(- \d+\)|\d+)\)`)
+var reKindIte = regexp.MustCompile(`reflect_kind[^\n]*\n?[^\n]*?(\d+)\)`)
+
+func filterReplayLines(out string) (string, bool) {
+	var b strings.Builder
+	rep := false
+	for _, l := range strings.Split(out, "\n") {
+		if strings.HasPrefix(l, "REPLAY-") || strings.HasPrefix(l, "  ") {
+			b.WriteString(l + "\n")
+		}
+		if strings.HasPrefix(l, "REPLAY-REPRODUCED") {
+			rep = true
+		}
+	}
+	return b.String(), rep
+}
+
+// multi-file overlay variant
+func runOverlayTestFiles(dir string, files map[string]string, runName string, env []string, timeout time.Duration) (string, error) {
+	tmp, err := os.MkdirTemp("", "verifreplay")
+	if err != nil {
+		return "", err
+	}
+	defer os.RemoveAll(tmp)
+	rep := map[string]string{}
+	for name, src := range files {
+		rep[filepath.Join(dir, name)] = src
+	}
+	b, _ := json.Marshal(map[string]map[string]string{"Replace": rep})
+	ovf := filepath.Join(tmp, "ov.json")
+	os.WriteFile(ovf, b, 0o644)
+	ctx, cancel := context.WithTimeout(context.Background(), timeout+30*time.Second)
+	defer cancel()
+	cmd := exec.CommandContext(ctx, "go", "test", "-overlay="+ovf, "-vet=off", "-count=1", fmt.Sprintf("-timeout=%ds", int(timeout.Seconds())), "-run", runName, "-v", ".")
+	cmd.Dir = dir
+	cmd.Env = append(os.Environ(), "GOFLAGS=-mod=mod", "GOPROXY=off", "GOSUMDB=off", "GOTOOLCHAIN=local")
+	cmd.Env = append(cmd.Env, env...)
+	out, err := cmd.CombinedOutput()
+	return string(out), err
+}
+
+func replayFrt(r *run, o *fovc.Obligation, model string) *replayResult {
+	files := map[string]string{
+		"zz_verif_replay_test.go":      filepath.Join(verifDir, "replay/frt_replay_test.go"),
+		"zz_verif_replay_more_test.go": filepath.Join(verifDir, "replay/frt_replay_more_test.go"),
+	}
+	switch o.Func {
+	case "frt.OpEqual", "frt.OpNotEqual":
+		what := "opequal-value"
+		src := "solver model: strict_eq(e1,e2) differs from struct_eq(e1,e2) (nil vs empty slice) or the result is negated"
+		if strings.Contains(o.Kind, "panic") {
+			what = "opequal-panic"
+			src = "solver model: has_unexported(e1) with no Exporter option passed"
+		}
+		out, _ := runOverlayTestFiles(filepath.Join(repoDir, "pkg/frt"), files, "TestVerifReplay", []string{"VERIF_REPLAY_WHAT=" + what}, 60*time.Second)
+		txt, rep := filterReplayLines(out)
+		if txt == "" {
+			txt = out
+		}
+		return &replayResult{Text: "input class taken from: " + src + "; concrete values found by enumerating the first-order universe of /verif/replay/frt_replay_more_test.go\ncommand: (cd /repo/pkg/frt && VERIF_REPLAY_WHAT=" + what + " go test -overlay <frt_replay_*_test.go> -vet=off -run TestVerifReplay -v .)\n" + txt, Reproduced: rep}
+	case "frt.toS", "frt.SInterP":
+		kind := 7
+		src := "default"
+		// the model interprets reflect_kind; take its value at the argument (constant or else-branch value)
+		if i := strings.Index(model, "(define-fun reflect_kind"); i >= 0 {
+			seg := model[i:]
+			if j := strings.Index(seg, "\n  (define-fun"); j > 0 {
+				seg = seg[:j]
+			}
+			nums := regexp.MustCompile(`\b(\d+)\b`).FindAllString(strings.SplitN(seg, "Int", 2)[1], -1)
+			if len(nums) > 0 {
+				kind, _ = strconv.Atoi(nums[len(nums)-1])
+				src = "solver model: reflect_kind(valueof(arg)) = " + nums[len(nums)-1]
+			}
+		}
+		out, _ := runOverlayTestFiles(filepath.Join(repoDir, "pkg/frt"), files, "TestVerifReplay", []string{"VERIF_REPLAY_WHAT=toS", fmt.Sprintf("VERIF_REPLAY_KIND=%d", kind)}, 60*time.Second)
+		txt, rep := filterReplayLines(out)
+		if txt == "" {
+			txt = out
+		}
+		return &replayResult{Text: "input taken from: " + src + "\ncommand: (cd /repo/pkg/frt && VERIF_REPLAY_WHAT=toS VERIF_REPLAY_KIND=" + fmt.Sprint(kind) + " go test -overlay <frt_replay_test.go> -vet=off -run TestVerifReplay -v .)\n" + txt, Reproduced: rep}
+	}
+	return nil
+}
 
 var reDefSlice = regexp.MustCompile(`\(define-fun (p_\w+) \(\) Slice\s+\(mk_slice (\(- \d+\)|\d+) (\(- \d+\)|\d+) (\(- \d+\)|\d+) (\(- \d+\)|\d+)\)\)`)
 var reDefInt = regexp.MustCompile(`\(define-fun (p_\w+) \(\) Int\s+(\(- \d+\)|\d+)\)`)
